@@ -41,7 +41,24 @@ func GetJsonDataType(t dsl.Type) JsonDataType {
 	}
 
 	if len(gt.Cases) > 1 {
-		panic("unexpected union type")
+		// an optional or a union reached through an alias: written by its own converter, as the bare value
+		// when the JSON types of its cases are distinct and as a single-key object otherwise
+		simplified := true
+		var possibleTypes JsonDataType
+		for _, c := range gt.Cases {
+			caseTypes := GetJsonDataType(c.Type)
+			if caseTypes&possibleTypes != 0 {
+				simplified = false
+			}
+			possibleTypes |= caseTypes
+		}
+		if simplified || gt.Cases.IsOptional() {
+			return possibleTypes
+		}
+		if gt.Cases.HasNullOption() {
+			return JsonNull | JsonObject
+		}
+		return JsonObject
 	}
 
 	scalarType := gt.Cases[0].Type.(*dsl.SimpleType)
